@@ -389,6 +389,10 @@ class SimpleCorrelator(AbstractCorrelator):
                 self._segment_store[seq_key] = (key, seq_num)
                 segment_status.status[str(seq_num)] = STATUS_SENDING
                 self._segment_status_store[key] = segment_status  # persist the update
+            else:
+                # Sequence numbers come round again (e.g. after a restart): an answered segment
+                # of an older message may have left an entry under this number
+                self._segment_store.pop(seq_key, None)
         await self._remove_expired()
 
     async def put_delivery(self, smsc_message_id: str, submit_sm: SubmitSm) -> None:
